@@ -32,6 +32,13 @@ type bounds struct {
 }
 
 func boundsFor(h *hz.H) bounds {
+	if h.Prop == "C10" {
+		// every value is paired with its variants and pushed through four text codecs: one slot less than C01
+		if h.Thorough() {
+			return bounds{top: enum.Boundary, maxDepth: 2, full: 2, reps: 2}
+		}
+		return bounds{top: enum.Boundary, maxDepth: 2, full: 1, reps: 2}
+	}
 	if h.Thorough() {
 		return bounds{top: enum.AllLens, maxDepth: 2, full: 2, reps: 3}
 	}
@@ -114,6 +121,8 @@ func main() {
 		eval = evalC04
 	case "C07":
 		eval = evalC07
+	case "C10":
+		eval = evalC10
 	default:
 		fmt.Fprintln(os.Stderr, "INTERNAL: engine valuespace does not serve", h.Prop)
 		os.Exit(2)
@@ -233,6 +242,8 @@ func finishProp(h *hz.H) {
 		h.Rep.Rule = "same value space as C01, Deterministic mode; three-way byte comparison fast / dynamicpb / spec encoder; non-trivial = encoding non-empty; distinct = hash(type, reference bytes)"
 	case "C04":
 		h.Rep.Rule = "same value space x {default, Deterministic} x 5 prefix buffers x {proto API, ProtoMethods direct}; non-trivial = encoding non-empty; distinct = hash(type, mode, reference bytes)"
+	case "C10":
+		h.Rep.Rule = "same value space as C01 (one slot less); each value x paired with {its twin, x with one slot moved to the next candidate, x with a slot cleared, empty} for Equal (both directions, and against a dynamicpb message) and Merge (incl. source untouched / no aliasing); Clone (deep, independent), Reset, CheckInitialized; protojson and prototext marshal (compact and multiline) compared as strings and their outputs (plus reversed member order for JSON) unmarshalled into generated vs dynamic messages; non-trivial = at least one populated slot; distinct = hash(type, canonical value)"
 	case "C07":
 		h.Rep.Rule = "same value space; scribble/snapshot oracles; non-trivial = value holds at least one string/bytes/unknown/list/map datum; distinct = hash(type, canonical value)"
 	}
